@@ -1,0 +1,49 @@
+//go:build verif
+
+package replication
+
+// Contracts checked by /verif/gocv (comment-only file; see /verif/DESIGN.md §3).
+//
+// (PutObject and AppendObject rewind the spooled body before every secondary call and stop on a rewind error; their
+// forwarding is stated as the safety clause below: whatever reaches a secondary is what the primary was given.)
+// Forwarding: once the primary has accepted a mutation, the same method is invoked on a secondary (the loop over the
+// secondaries is summarised by one arbitrary iteration) for the same bucket and key, after the primary. Instantiated
+// over the method set, so an object mutator the replication storage only inherits from the delegator fails.
+
+//@ methods rs *replicationStorage of storage.Storage in PutObjectTagging DeleteObjectTagging DeleteObject TransitionObjectStorageClass
+//@ mode effects
+//@ requires len(rs.secondaryStorages) > 0 && forall j :: 0 <= j && j < len(rs.secondaryStorages) ==> rs.secondaryStorages[j] != rs.Next
+//@ effect[C23:object-mutation-forwarded] every rs.Next.$M(_, storage.BucketName($b), storage.ObjectKey($k), __) -> (__, $err) if $err == nil
+//@     needs after storage.Storage($s).$M2(_, storage.BucketName($b2), storage.ObjectKey($k2), __)
+//@     where $M2 == $M && $s != rs.Next && $b2 == $b && $k2 == $k
+
+//@ methods rs *replicationStorage of storage.Storage in CreateBucket DeleteBucket DeleteObjects
+//@ mode effects
+//@ requires len(rs.secondaryStorages) > 0 && forall j :: 0 <= j && j < len(rs.secondaryStorages) ==> rs.secondaryStorages[j] != rs.Next
+//@ effect[C23:bucket-mutation-forwarded] every rs.Next.$M(_, storage.BucketName($b), __) -> (__, $err) if $err == nil
+//@     needs after storage.Storage($s).$M2(_, storage.BucketName($b2), __)
+//@     where $M2 == $M && $s != rs.Next && $b2 == $b
+
+// Copies are forwarded with source, destination and the caller's options (directives, metadata, tags, redirect).
+//@ func (*replicationStorage).CopyObject
+//@ mode effects
+//@ requires len(rs.secondaryStorages) > 0 && forall j :: 0 <= j && j < len(rs.secondaryStorages) ==> rs.secondaryStorages[j] != rs.Next
+//@ effect[C23:copy-forwarded-with-options] every rs.Next.CopyObject(_, $sb, $sk, $db, $dk, $o) -> (_, $err) if $err == nil
+//@     needs after storage.Storage($s).CopyObject(_, $sb2, $sk2, $db2, $dk2, $o2)
+//@     where $s != rs.Next && $sb2 == $sb && $sk2 == $sk && $db2 == $db && $dk2 == $dk && $o2 == $o
+
+// PutObject: the secondaries receive the content type, checksum input and the tag set / metadata / storage class of
+// the caller's options (conditional-write preconditions are deliberately not re-evaluated).
+//@ func (*replicationStorage).PutObject
+//@ mode effects
+//@ requires len(rs.secondaryStorages) > 0 && forall j :: 0 <= j && j < len(rs.secondaryStorages) ==> rs.secondaryStorages[j] != rs.Next
+//@ effect[C23:put-forwards-metadata] every storage.Storage($s).PutObject(_, $b2, $k2, $ct2, _, $ci2, $o2) if $s != rs.Next
+//@     needs before rs.Next.PutObject(_, $b, $k, $ct, _, $ci, $o) -> (_, $err)
+//@     where $err == nil && $b2 == $b && $k2 == $k && $ct2 == $ct && $ci2 == $ci && ($o == nil || ($o.Metadata == nil && $o.StorageClass == nil && len($o.Tags) == 0) ||
+//@         ($o2 != nil && $o2.Metadata == $o.Metadata && $o2.StorageClass == $o.StorageClass))
+
+//@ func (*replicationStorage).AppendObject
+//@ mode effects
+//@ effect[C23:append-forwards-arguments] every storage.Storage($s).AppendObject(_, $b2, $k2, _, $ci2, $o2) if $s != rs.Next
+//@     needs before rs.Next.AppendObject(_, $b, $k, _, $ci, $o) -> (_, $err)
+//@     where $err == nil && $b2 == $b && $k2 == $k && $ci2 == $ci
